@@ -2,6 +2,7 @@
 `restarts` attribute; spy archives as public subclasses of GridArchive / ProximityArchive) vs the extracted BanditScheduler
 model (Model/Bandit.v through run_C16), on random ask/tell programs, plus an independent oracle that evaluates the clauses
 of the property directly on what the implementation did."""
+import py2v_proto
 import copy
 import json
 import math
@@ -15,8 +16,11 @@ import c04_util as U
 
 CONFIG = {
     "cone": ["Base/ListUtil.v", "Base/SliceUtil.v", "Model/Store.v", "Model/Scheduler.v", "Proofs/SchedulerProofs.v",
-             "Model/Bandit.v", "Proofs/BanditProofs.v", "Properties/C16.v"],
-    "trusted": ["Model/Bandit.v abstracts emitters (scripted answers, recorded arguments, their `restarts` attribute is an input of "
+             "Model/Bandit.v", "Proofs/BanditProofs.v", "Generated/ProtoGen.v", "Refine/ProtoRefine.v", "Properties/C16.v"],
+    "extra_property_files": ["Refine/ProtoRefine.v"],
+    "trusted": ["harness/py2v_proto.py: fail-closed extractor of the ask/tell protocol table (guard on _last_called evaluated first, state assigned right "
+                "after it) of Scheduler and BanditScheduler into Generated/ProtoGen.v on every run; Refine/ProtoRefine.v proves the models follow it",
+                "Model/Bandit.v abstracts emitters (scripted answers, recorded arguments, their `restarts` attribute is an input of "
                 "every ask) and archives (list of accepted insertion calls; add feedback and validation failures are oracle inputs "
                 "taken from the real archive), exactly as Model/Scheduler.v does for C04",
                 "the UCB1 score of a previously selected emitter is an input of the model's ask: the harness evaluates the documented "
@@ -661,6 +665,7 @@ def report(rep, case, d, driver):
 
 
 def check(rep, tier, seed, driver):
+    py2v_proto.report(rep)
     rng = random.Random(seed)
     n = 420 if tier == "quick" else 3000
     rep.rule = ("random ask/tell programs (0-25% out-of-order calls incl. ask_dqd/tell_dqd, malformed tells) on a real BanditScheduler: "
